@@ -198,20 +198,20 @@ def renderOutcome (rule : Option Rule) (st : St) : Outcome → String
 def methodOk (m : String) : Bool :=
   ["GET", "HEAD", "POST", "PUT", "DELETE", "CONNECT", "OPTIONS", "TRACE", "PATCH", "PROPFIND"].contains m
 
-def runOps (P : Prims) (cfg : Cfg) : St → List String → List String → List String
-  | _, [], acc => acc.reverse
-  | st, t :: rest, acc =>
+def runOps (P : Prims) (cfg : Cfg) : Nat → St → List String → List String → List String
+  | _, _, [], acc => acc.reverse
+  | sc, st, t :: rest, acc =>
     match splitComma t with
     | ["q", m, tgt, path, hdr, h2] =>
       match ofHex tgt, ofHex path, hexOpt hdr with
       | some tgt, some path, some hdr =>
-        if !methodOk m then runOps P cfg st rest ("bad-op" :: acc) else
-        let req : Req := { method := str m, target := tgt, path := path, auth := hdr, protocol := h2 ≠ "0" }
-        let r := handle P cfg st req
+        if !methodOk m then runOps P cfg sc st rest ("bad-op" :: acc) else
+        let req : Req := { method := str m, target := tgt, path := path, auth := hdr, protocol := h2 ≠ "0", scope := sc }
+        let r := serve P cfg st req
         let rule := (findRule cfg.rules path 0).map (·.2)
         -- challenges are rendered with the clock of the request
-        runOps P cfg r.1 rest ((renderOutcome rule st r.2 ++ "|" ++ renderCache r.1.cache) :: acc)
-      | _, _, _ => runOps P cfg st rest ("bad-op" :: acc)
+        runOps P cfg sc r.1 rest ((renderOutcome rule st r.2 ++ "|" ++ renderCache r.1.cache) :: acc)
+      | _, _, _ => runOps P cfg sc st rest ("bad-op" :: acc)
     | ["h", _idmode, flds] =>
       let parsed : Option (List (Bytes × Bytes)) :=
         ((flds.splitOn ";").filter (· ≠ "")).foldr (fun f acc =>
@@ -221,36 +221,48 @@ def runOps (P : Prims) (cfg : Cfg) : St → List String → List String → List
                                | _, _ => none)
           | _, _ => none) (some [])
       match parsed with
-      | none => runOps P cfg st rest ("bad-op" :: acc)
+      | none => runOps P cfg sc st rest ("bad-op" :: acc)
       | some fields =>
-        match h2Request fields with
-        | .error s => runOps P cfg st rest (("h2:" ++ toString s) :: acc)
-        | .ok req =>
-          let r := handle P cfg st req
+        match h2Request h2Opts fields with
+        | .error s => runOps P cfg sc st rest (("h2:" ++ toString s) :: acc)
+        | .ok req0 =>
+          let req : Req := { req0 with scope := sc }
+          let r := serve P cfg st req
           let rule := (findRule cfg.rules req.path 0).map (·.2)
-          runOps P cfg r.1 rest (("m=" ++ asString req.method ++ ",x=" ++ (if req.h2ext then "1" else "0") ++
+          runOps P cfg sc r.1 rest (("m=" ++ asString req.method ++ ",x=" ++ (if req.h2ext then "1" else "0") ++
             ",t=" ++ toHex req.target ++ ",p=" ++ toHex req.path ++ "/" ++
             renderOutcome rule st r.2 ++ "|" ++ renderCache r.1.cache) :: acc)
     | ["a", dt] =>
       match dt.toNat? with
       | some dt =>
-        let st' := advance cfg dt st
-        runOps P cfg st' rest (("t" ++ renderCache st'.cache) :: acc)
-      | none => runOps P cfg st rest ("bad-op" :: acc)
+        let st' := loopIter cfg dt st
+        runOps P cfg sc st' rest (("t" ++ renderCache st'.cache) :: acc)
+      | none => runOps P cfg sc st rest ("bad-op" :: acc)
+    | ["s", n] =>
+      match n.toNat? with
+      | some n =>
+        let st' := secs cfg n st
+        runOps P cfg sc st' rest (("t" ++ renderCache st'.cache) :: acc)
+      | none => runOps P cfg sc st rest ("bad-op" :: acc)
+    | ["b", n] =>
+      match n.toNat? with
+      | some n => if n < cfg.scopes.length then runOps P cfg n st rest ("b" :: acc)
+                  else runOps P cfg sc st rest ("bad-op" :: acc)
+      | none => runOps P cfg sc st rest ("bad-op" :: acc)
     | ["e", de] =>
       match parseInt de with
-      | some de => runOps P cfg { st with epoch := st.epoch + de } rest ("e" :: acc)
-      | none => runOps P cfg st rest ("bad-op" :: acc)
+      | some de => runOps P cfg sc { st with epoch := st.epoch + de } rest ("e" :: acc)
+      | none => runOps P cfg sc st rest ("bad-op" :: acc)
     | ["n", ri, ts, rnd, _dalgo] =>
       match ri.toNat?, parseInt ts, rnd.toNat? with
       | some ri, some ts, some rnd =>
         match cfg.rules[ri]? with
         | some r =>
-          if (cfg.rules.take ri).any (fun r' => r'.pfx = r.pfx) then runOps P cfg st rest ("bad-op" :: acc)
-          else runOps P cfg st rest (toHex (appendNonce P ts r.secret (rnd % 2 ^ 32)) :: acc)
-        | none => runOps P cfg st rest ("bad-op" :: acc)
-      | _, _, _ => runOps P cfg st rest ("bad-op" :: acc)
-    | _ => runOps P cfg st rest ("bad-op" :: acc)
+          if (cfg.rules.take ri).any (fun r' => r'.pfx = r.pfx) then runOps P cfg sc st rest ("bad-op" :: acc)
+          else runOps P cfg sc st rest (toHex (appendNonce P ts r.secret (rnd % 2 ^ 32)) :: acc)
+        | none => runOps P cfg sc st rest ("bad-op" :: acc)
+      | _, _, _ => runOps P cfg sc st rest ("bad-op" :: acc)
+    | _ => runOps P cfg sc st rest ("bad-op" :: acc)
 
 def renderParams (dp : Params) : String :=
   let f (n : String) (v : Option Bytes) : String := n ++ "=" ++ (match v with | some b => toHex b | none => "~")
@@ -277,24 +289,31 @@ def authLine : List String → String
     | some b => (match algorithmParse b with | some (a, l) => toString a ++ " " ++ toString l | none => "0")
     | none => "bad-op"
   | "run" :: hsel :: hmod :: cache :: backend :: file :: mono0 :: epoch0 :: nrules :: rest =>
-    match hmod.toNat?, ofHex file, parseInt mono0, parseInt epoch0, nrules.toNat? with
-    | some hmod, some file, some mono0, some epoch0, some nrules =>
+    -- backend / file: one entry per backend scope, joined by '+' (scope 0 first)
+    let beOf (b : String) : Option Backend :=
+      if b = "plain" then some .plain else if b = "htdigest" then some .htdigest
+      else if b = "htpasswd" then some .htpasswd else if b = "none" then some .none else none
+    let bes : Option (List Backend) := (backend.splitOn "+").foldr (fun b acc =>
+      match acc, beOf b with | some l, some x => some (x :: l) | _, _ => none) (some [])
+    let files : Option (List Bytes) := (file.splitOn "+").foldr (fun f acc =>
+      match acc, ofHex f with | some l, some x => some (x :: l) | _, _ => none) (some [])
+    match hmod.toNat?, files, parseInt mono0, parseInt epoch0, nrules.toNat? with
+    | some hmod, some files, some mono0, some epoch0, some nrules =>
       let cacheMaxAge : Option (Option Int) := if cache = "-" then some none else (parseInt cache).map some
-      let be : Option Backend :=
-        if backend = "plain" then some .plain else if backend = "htdigest" then some .htdigest
-        else if backend = "htpasswd" then some .htpasswd else if backend = "none" then some .none else none
-      match cacheMaxAge, be with
-      | some cacheMaxAge, some be =>
-        if nrules > 16 then "bad-op" else
+      match cacheMaxAge, bes with
+      | some cacheMaxAge, some bes =>
+        if nrules > 16 || bes.length ≠ files.length || bes.isEmpty then "bad-op" else
         match parseRules nrules rest [] with
         | none => "bad-op"
         | some (none, _) => "cfg-error"
         | some (some rules, ops) =>
-          let cfg : Cfg := { rules := rules, backend := be, file := file, cacheMaxAge := cacheMaxAge }
+          let scopes := bes.zip files
+          let cfg : Cfg := { rules := rules, backend := bes.headD .none, file := files.headD [],
+                             cacheMaxAge := cacheMaxAge, scopes := scopes }
           let P : Prims := { H := md5, hash := cacheKey hsel hmod rules, crypt := cryptVerify }
-          let outs := runOps P cfg { mono := mono0, epoch := epoch0 } ops []
+          let outs := runOps P cfg 0 { mono := mono0, epoch := epoch0 } ops []
           if outs.isEmpty then "-" else String.intercalate " " outs
-      | _, _ => if be.isNone then "bad-backend" else "bad-op"
+      | _, _ => if bes.isNone then "bad-backend" else "bad-op"
     | _, _, _, _, _ => "bad-op"
   | _ => "bad-op"
 
